@@ -124,7 +124,7 @@ def _run_stub_generator(
         type_source_warning=type_source_warning,
     )
     # Create an API file
-    out_file_api = out_dir_path.joinpath(f"{src_dir_path.stem}__api.json")
+    out_file_api = out_dir_path.joinpath(f"{src_dir_path.name}__api.json")
     api.to_json_file(out_file_api)
 
     # Generate the stub data
